@@ -9,6 +9,7 @@
 #include <pistache/endpoint.h>
 #include <pistache/router.h>
 
+#include <atomic>
 #include <thread>
 
 #include "actors.h"
@@ -58,6 +59,8 @@ Json gen(sim::Rng& rng, int tier)
     if (rng.chance(0.5)) p["shutdown_at_us"] = -1;
     else p["shutdown_at_us"] = static_cast<int>(rng.below(12000));
     p["late_client"] = rng.chance(0.5);
+    // in part of the runs the application calls the blocking serve() on a thread of its own instead of serveThreaded()
+    p["blocking_serve"] = rng.chance(0.3);
     gen_sched(rng, p, 4000, true);
     return p;
 }
@@ -89,8 +92,12 @@ void run(const Json& plan)
     });
 
     auto router = std::make_shared<Rest::Router>();
+    // the application's own knowledge that the server is up: a handler has run (real synchronisation, visible to ThreadSanitizer)
+    static std::atomic<int> served;
+    served.store(0);
     auto reply = [](const char* name) {
         return [name](const Rest::Request& req, Http::ResponseWriter resp) {
+            served.fetch_add(1, std::memory_order_release);
             std::ostringstream m;
             m << req.method();
             resp.send(Http::Code::Ok, m.str() + " " + name + " " + req.param(":tag").as<std::string>() + " " + req.body());
@@ -106,7 +113,36 @@ void run(const Json& plan)
     auto ep = std::make_unique<Http::Endpoint>(Address("127.0.0.1", Port(port)));
     ep->init(Http::Endpoint::options().threads(workers));
     ep->setHandler(router->handler());
-    ep->serveThreaded();
+    const bool blocking = plan.flag("blocking_serve");
+    std::thread server;
+    bool serve_returned = false;
+    if (blocking) {
+        r.probe("blocking-serve");
+        Http::Endpoint* e = ep.get();
+        server = std::thread([e, &serve_returned] {
+            sim::set_self_name("app-serve");
+            e->serve();
+            sim::IgnoreScope ig;
+            serve_returned = true;
+        });
+        // shutdown() is only meaningful once serve() is running: an application that calls it while serve() is still binding and
+        // setting up has a race of its own (the threaded variant binds its wake-up descriptor before it starts the thread). The
+        // application here does what a real one can do: it waits until one of its handlers has run, which orders everything
+        // serve() did before it started the workers before the application's call of shutdown().
+        std::vector<std::shared_ptr<actors::Client>> probes;
+        for (int i = 0; i < 3000 && served.load(std::memory_order_acquire) == 0; ++i) {
+            // (a connection attempt before serve() has bound the listening socket is refused; try again)
+            if (i % 5 == 0 && i < 500) {
+                std::vector<actors::Step> ps { httpw::step(actors::Step::Connect), httpw::send_step(actors::http_request("GET", "/echo/1", { { "Host", "sim" } }, "")),
+                                                httpw::step(actors::Step::Await, 1000 * 1000000LL, 1), httpw::step(actors::Step::Close) };
+                probes.push_back(std::make_shared<actors::Client>(900 + i, port, ps));
+                probes.back()->start(0);
+            }
+            sim::sleep_ns(i < 500 ? 100 * 1000 : 1000 * 1000);
+        }
+        if (served.load(std::memory_order_acquire) == 0) r.violation("C09.serve:not-serving", "2.5 s after serve() was called on its own thread no request had been served");
+    } else
+        ep->serveThreaded();
 
     const Json& jc = plan.get("clients");
     std::vector<std::shared_ptr<actors::Client>> clients;
@@ -189,6 +225,11 @@ void run(const Json& plan)
     phase = "shutdown";
     int before = sim::live_thread_count();
     ep->shutdown();
+    if (blocking) {
+        // shutdown() from another thread makes the blocking serve() return
+        server.join();
+        if (!serve_returned) r.violation("C09.shutdown:serve-did-not-return", "serve() did not return after shutdown()");
+    }
     ep.reset();
     int after = sim::live_thread_count();
     phase = "after";
